@@ -243,7 +243,14 @@ fn write_node(dir: &std::path::Path, path: &[u8], node: &FsNode) -> Result<(), O
     let _ = std::fs::remove_dir_all(&p);
     let _ = std::fs::remove_file(&p);
     match node {
-        FsNode::File(c) => std::fs::write(&p, c).map_err(|e| OpErr::Harness(format!("write {:?}: {e}", p))),
+        FsNode::File(c) => {
+            if path.contains(&b'/') {
+                if let Some(parent) = p.parent() {
+                    std::fs::create_dir_all(parent).map_err(|e| OpErr::Harness(format!("mkdir {:?}: {e}", parent)))?;
+                }
+            }
+            std::fs::write(&p, c).map_err(|e| OpErr::Harness(format!("write {:?}: {e}", p)))
+        }
         FsNode::Dir => std::fs::create_dir_all(&p).map_err(|e| OpErr::Harness(format!("mkdir {:?}: {e}", p))),
         FsNode::Missing => Ok(()),
     }
@@ -313,6 +320,18 @@ fn apply_damage(cf: &mut Vec<u8>, kind: &Damage) -> bool {
             cf.push(b'\n');
             true
         }
+        Damage::AppendLines { text_hex, n } => {
+            if !cf.is_empty() && cf.last() != Some(&b'\n') {
+                cf.push(b'\n');
+            }
+            let line = unhex(text_hex);
+            for _ in 0..*n {
+                cf.extend_from_slice(&line);
+                cf.push(b'\n');
+            }
+            true
+        }
+        Damage::Concat { .. } => false, // needs the other checkfile: done by the caller
         Damage::TruncateBytes { n } => {
             let k = if cf.is_empty() { 0 } else { n % cf.len() };
             cf.truncate(k);
@@ -546,6 +565,16 @@ pub fn do_cli(sh: &Arc<Shared>, _local: &mut TaskLocal, op: &Op) -> OpResult {
         }
         Op::CliDamage { cf, kind } => {
             let mut st = sh.cli.lock().unwrap();
+            if let Damage::Concat { other } = kind {
+                let Some(o) = st.checkfiles.get(other).cloned() else { return Err(OpErr::Skip) };
+                let Some(c) = st.checkfiles.get_mut(cf) else { return Err(OpErr::Skip) };
+                if !c.is_empty() && c.last() != Some(&b'\n') {
+                    c.push(b'\n');
+                }
+                c.extend_from_slice(&o);
+                sh.fault("checkfile_concatenated");
+                return Ok(3);
+            }
             let Some(c) = st.checkfiles.get_mut(cf) else { return Err(OpErr::Skip) };
             if !apply_damage(c, kind) {
                 return Err(OpErr::Skip);
@@ -554,6 +583,8 @@ pub fn do_cli(sh: &Arc<Shared>, _local: &mut TaskLocal, op: &Op) -> OpResult {
                 Damage::Crlf => "checkfile_crlf",
                 Damage::Line { .. } => "checkfile_line_damage",
                 Damage::AppendLine { .. } => "checkfile_spliced_line",
+                Damage::AppendLines { .. } => "checkfile_many_failing_lines",
+                Damage::Concat { .. } => "checkfile_concatenated",
                 Damage::TruncateBytes { .. } => "checkfile_truncated",
                 Damage::InvalidUtf8 { .. } => "checkfile_invalid_utf8",
                 Damage::DropFinalNewline => "checkfile_no_final_newline",
@@ -695,6 +726,10 @@ pub fn do_cli(sh: &Arc<Shared>, _local: &mut TaskLocal, op: &Op) -> OpResult {
                 flags.no_mmap as u8,
             ]));
             Ok(Fnv::of(&out.stdout) ^ out.code.unwrap_or(-1) as u64)
+        }
+        Op::PathRoundTrip { .. } | Op::ParseMutations { .. } | Op::ParseLine { .. } if !crate::b3::PRIVATE_API => {
+            sh.probe("b3sum_private_parser_unavailable_skipped");
+            Err(OpErr::Skip)
         }
         Op::PathRoundTrip { path_hex, tag, crlf } => {
             let path = unhex(path_hex);
